@@ -431,8 +431,9 @@ class NumpyConverter(object):
         if tf_xl not in self.trace_headers:
             self.trace_headers[tf_xl] = np.broadcast_to(self.xlines, shape)
 
-        # Footer arrays are located by the reader in ascending header-word order
-        self.trace_headers = collections.OrderedDict(sorted(self.trace_headers.items()))
+        # Footer arrays are located by the reader in ascending header-word order, and decoded as 32-bit integers
+        self.trace_headers = collections.OrderedDict((tracefield, np.asarray(header_array).astype(np.int32))
+                                                     for tracefield, header_array in sorted(self.trace_headers.items()))
 
         # Do some sanity checks
         assert data_array.dtype == np.float32
